@@ -43,8 +43,8 @@ import (
 	"github.com/yuin/goldmark/ast"
 	ghtml "github.com/yuin/goldmark/renderer/html"
 	gutil "github.com/yuin/goldmark/util"
-	xhtml "golang.org/x/net/html"
 	"gnoverif/kit"
+	xhtml "golang.org/x/net/html"
 )
 
 // ------------------------------------------------------------------ real renderer
